@@ -387,7 +387,7 @@ Fixpoint split_rb (s : string) : option (string * string) :=
 Definition parse_array (s : string) : option (N * string) :=
   match s with
   | String c s' =>
-      if Ascii.eqb c "[" then
+      if Ascii.eqb "[" c then
         match split_rb s' with
         | Some (ds, rest) =>
             match ds, rest with
